@@ -83,7 +83,10 @@ func condFields(st reflect.Type) []int {
 }
 
 // presence pattern: which conditional fields are non-zero.  pat 0 none, 1 all, 2+j only the j-th, 2+m+j all
-// but the j-th (m = number of conditional fields)
+// but the j-th (m = number of conditional fields); then, for m >= 3, the 2*bits(m-1) *pairwise* patterns
+// 2+2m+2b(+1): field j is present iff bit b of j is set (resp. clear).  Any two distinct fields differ in
+// some bit of their index, so together with none/all every pair of conditional fields is seen in all four
+// presence combinations.
 func present(pat, m, j int) bool {
 	switch {
 	case pat == 0:
@@ -92,9 +95,20 @@ func present(pat, m, j int) bool {
 		return true
 	case pat < 2+m:
 		return pat-2 == j
-	default:
+	case pat < 2+2*m:
 		return pat-2-m != j
+	default:
+		q := pat - 2 - 2*m
+		return ((j>>(q/2))&1 == 1) != (q%2 == 1)
 	}
+}
+
+func idxBits(m int) int {
+	b := 0
+	for (1 << b) < m {
+		b++
+	}
+	return b
 }
 
 func numPatterns(m int) int {
@@ -104,7 +118,20 @@ func numPatterns(m int) int {
 	if m == 1 {
 		return 2
 	}
-	return 2 + 2*m
+	if m == 2 {
+		return 2 + 2*m
+	}
+	return 2 + 2*m + 2*idxBits(m)
+}
+
+// pairwisePat maps q = 0,1,.. to the q-th pairwise pattern of a constructor with m conditional fields (a
+// pattern number past the last one when there is none), so that a driver can ask for "the pairwise patterns"
+// without knowing m.
+func pairwisePat(m, q int) int {
+	if m < 3 {
+		return 1 << 20
+	}
+	return 2 + 2*m + q
 }
 
 type filler struct {
